@@ -438,6 +438,51 @@ func c13Run(c *engine.Ctx) {
 		c.Count("convex_position_cases", 1)
 		c13Exec(c, c13Case{Pts: pts, Layout: layouts[i%4], Via: "flat"})
 	})
+	// collinear runs THROUGH THE LOWEST POINT in every direction (the radial sort's tie-break): the
+	// lowest point F, three or four further points on one ray from F (every primitive direction
+	// with |dx| <= 3, 0 <= dy <= 3 that keeps F lowest-leftmost), and one point off the ray - every
+	// input order of these 5 / 6 points. A 3x3 grid has no ray with three lattice points beyond F.
+	type rayJob struct {
+		dx, dy, k int
+		off    [2]float64
+	}
+	var rays []rayJob
+	for dy := 0; dy <= 3; dy++ {
+		for dx := -3; dx <= 3; dx++ {
+			if (dy == 0 && dx != 1) || (dy > 0 && gcdInt(absInt(dx), dy) != 1) {
+				continue
+			}
+			for _, k := range []int{3, 4} {
+				for _, off := range [][2]float64{{20, 1}, {-1, 20}} {
+					rays = append(rays, rayJob{dx, dy, k, off})
+				}
+			}
+		}
+	}
+	c.Note("rays_through_the_lowest_point", len(rays))
+	c.Parallel(len(rays), func(i int) {
+		j := rays[i]
+		base := [][2]float64{{0, 0}}
+		for m := 1; m <= j.k; m++ {
+			base = append(base, [2]float64{float64(m * j.dx), float64(m * j.dy)})
+		}
+		base = append(base, j.off)
+		if j.off[1] < 0 || (j.dy == 0 && j.off[1] == 0) {
+			return
+		}
+		idx := make([]int, len(base))
+		for x := range idx {
+			idx[x] = x
+		}
+		permute(idx, func(pm []int) {
+			var pts []ref.F
+			for _, x := range pm {
+				pts = append(pts, ref.F(base[x][0]+7), ref.F(base[x][1]+5))
+			}
+			c.Count("ray_permutation_cases", 1)
+			c13Exec(c, c13Case{Pts: pts, Layout: layouts[(i+pm[0])%4], Via: "flat"})
+		})
+	})
 	// extra ordinates that echo coordinates: 60 points in convex position (both shapes, 8
 	// symmetries); for every ordered pair (P, Q) of the eight directional extremes (min/max of x, y,
 	// x+y, x-y) (a) the set shifted along x so that P.x = Q.y, in XYZ and XYM with Z = M = P.y for
@@ -623,4 +668,18 @@ func c13Run(c *engine.Ctx) {
 		}
 	}
 	_ = math.Abs
+}
+
+func gcdInt(a, b int) int {
+	for b != 0 {
+		a, b = b, a%b
+	}
+	return a
+}
+
+func absInt(a int) int {
+	if a < 0 {
+		return -a
+	}
+	return a
 }
